@@ -89,6 +89,16 @@ def _neg_zero_after_wildcard(ast, b):
     return False
 
 
+def _int_respelled_digits_after_wildcard(ast, b):
+    """An int wildcard bound to a text with non-ASCII decimal digits (which \\d accepts and int() converts) directly after another wildcard: url() writes
+    ASCII digits, which the wildcard in front may absorb."""
+    ws = [i for i, s in enumerate(ast) if s[0] == 'w']
+    for k, i in enumerate(ws):
+        if ast[i][2] == 'int' and i > 0 and ast[i - 1][0] == 'w' and any(ch not in '-0123456789' for ch in b[k][1]):
+            return True
+    return False
+
+
 def _float_text_after_lookahead(ast, b):
     """A float wildcard bound to a text that url() will not reproduce (str(float(t)) != t, e.g. '5' -> '5.0', '1.50' -> '1.5') that stands after a
     wildcard whose filter looks ahead (path, or re with a look-ahead): the re-spelled number can move the point where that earlier wildcard ends."""
@@ -150,6 +160,9 @@ def check_case(ctx, case, witness=False):
         return
     if not witness and _neg_zero_after_wildcard(ast, b):
         ctx.exclude('int_negative_zero_after_wildcard(K19-int-negative-zero)')
+        return
+    if not witness and _int_respelled_digits_after_wildcard(ast, b):
+        ctx.exclude('int_with_non_ascii_digits_after_wildcard(K19-int-unicode-digits-after-wildcard)')
         return
     if not witness and _float_text_after_lookahead(ast, b):
         ctx.exclude('float_respelled_after_lookahead_wildcard(K19-float-respelled-after-lookahead)')
@@ -292,6 +305,17 @@ def witness_negzero(ctx):
     ctx.note('K19-int-negative-zero witness passes on this tree (finding no longer reproduces)')
 
 
+def witness_int_digits(ctx):
+    case = {'ast': [['lit', '/'], ['w', None, 're', '[0-9a-f]{1,3}'], ['w', None, 'int', None]], 'choice': [], 'spell': 0, 'path': '/ff\u0663'}
+    try:
+        check_case(ctx, case, witness=True)
+    except CheckFailure as f:
+        if "= 'ff3' is not matched by the rule" in str(f) and ctx.known('K19-int-unicode-digits-after-wildcard'):
+            return
+        raise
+    ctx.note('K19-int-unicode-digits-after-wildcard witness passes on this tree (finding no longer reproduces)')
+
+
 def witness_float_lookahead(ctx):
     case = {'ast': [['lit', '/'], ['w', None, 'path', None], ['lit', '.'], ['w', 'a', 'float', None]], 'choice': [], 'spell': 0, 'path': '/a/b.1.5'}
     try:
@@ -311,6 +335,7 @@ def run(ctx):
         ctx.guarded(lambda c, _: witness_k19(c), {'witness': 'K19'})
         ctx.guarded(lambda c, _: witness_negzero(c), {'witness': 'K19-int-negative-zero'})
         ctx.guarded(lambda c, _: witness_float_lookahead(c), {'witness': 'K19-float-respelled-after-lookahead'})
+        ctx.guarded(lambda c, _: witness_int_digits(c), {'witness': 'K19-int-unicode-digits-after-wildcard'})
         lit = lambda t: ['lit', t]   # noqa
         # size grid: rules with n wildcards (all anonymous / all named / alternating), n = 1..14
         for n in range(1, 15):
@@ -381,7 +406,7 @@ def run(ctx):
 
 def replay(ctx, case):
     if 'witness' in case:
-        return witness_float_lookahead(ctx) if 'lookahead' in case['witness'] else witness_negzero(ctx) if 'zero' in case['witness'] else witness_k19(ctx)
+        return witness_int_digits(ctx) if 'unicode-digits' in case['witness'] else witness_float_lookahead(ctx) if 'lookahead' in case['witness'] else witness_negzero(ctx) if 'zero' in case['witness'] else witness_k19(ctx)
     if 'threaded' in case:
         return check_threaded(ctx, case)
     check_case(ctx, case)
